@@ -3,7 +3,7 @@
 cd "$(dirname "$0")/.."
 rc=0
 for p in C01 C02 C03 C04 C05 C06 C07 C08 C09 C10 C11 C12 C13 C14 C15 C16 C17 C18; do
-  out=$(VERIF_SEED=${VERIF_SEED:-1} timeout 1800 ./vcheck $p --tier ${1:-quick} 2>&1); r=$?
+  out=$(VERIF_SEED=${VERIF_SEED:-1} timeout ${REGRESS_TIMEOUT:-1800} ./vcheck $p --tier ${1:-quick} 2>&1); r=$?
   echo "$p rc=$r $(echo "$out" | grep "^$p \[" | tail -1 | cut -c1-200)"
   if [ $r -ne 0 ]; then rc=1; echo "$out" | grep -v "^KNOWN" | grep "VIOLATION\|UNDECIDED\|CRASH" | head -3 | cut -c1-300; fi
 done
